@@ -829,14 +829,31 @@ def run_proc_probes(c, pid, payloads):
     if c.replay:
         rp = _json.load(open(c.replay))["replay"]
         payloads = [rp["probe"]] if "probe" in rp else []
-    for pl in payloads:
+    from concurrent.futures import ThreadPoolExecutor
+
+    def conclusive(o):
+        # (under load the fake sbatch gives up on its lock after 2 s: the job is then ERROR without having run)
+        return (not o.get("error")) and any(j["started"] and j["how"] not in LEAVE_OK for j in o["jobs"].values())
+
+    def attempt(pl):
+        o = None
+        for _try in range(3):
+            try:
+                o = run_impl("drive_procs.py", pl, timeout=400)
+            except Exception as e:  # noqa
+                o = dict(error=str(e)[-300:], crashed=True)
+            if conclusive(o):
+                break
+        return o
+
+    with ThreadPoolExecutor(max_workers=4) as ex:
+        results = list(ex.map(attempt, payloads))
+    for pl, o in zip(payloads, results):
         c.evaluations += 1
         tag = pl["mode"] + (":" + pl.get("sacct", "plain") if pl["mode"] == "slurm" else "")
         c.count("probe:" + tag)
-        try:
-            o = run_impl("drive_procs.py", pl, timeout=400)
-        except Exception as e:  # noqa
-            c.violation("harness:run-did-not-complete", f"the real-process probe {tag} did not complete: {str(e)[-300:]}",
+        if o.get("crashed"):
+            c.violation("harness:run-did-not-complete", f"the real-process probe {tag} did not complete: {o['error']}",
                         dict(probe=pl))
             continue
         if o.get("error"):
@@ -856,7 +873,9 @@ def run_proc_probes(c, pid, payloads):
                                                                         and int(how[5:]) != 0)) else "nonzero"
             a = o["afters"]["a" + n[1:]]
             if not j["started"]:
-                report(f"{pid}:probe:{tag}:job-not-run", f"the job that leaves with `{how}` was not run")
+                c.count("probe-job-not-run:" + tag)      # (not launched by the fake batch system: says nothing)
+                if pl["mode"] != "slurm":
+                    report(f"{pid}:probe:{tag}:job-not-run", f"the job that leaves with `{how}` was not run")
                 continue
             if ok and j["state"] != "DONE":
                 report(f"{pid}:probe:{tag}:successful-job-not-DONE", f"body left with `{how}`: job state {j['state']}")
